@@ -20,7 +20,7 @@ def impl_outcome(run_reply, E):
     intr = kw.get("intr") == "1"
     steps = int(kw.get("steps", "0"))
     if head == "ok":
-        rv = kw.get("retv", "none")
+        rv = kw.get("retv", kw.get("returned", "none"))
         if rv != "none":
             return ("returned", rv), intr, out, steps
         return ("ok", None), intr, out, steps
@@ -59,6 +59,10 @@ def compare(model_it, model_oc, impl_oc, impl_markers):
         return None       # `return;` without a value ends the program: nothing is handed to the host
     if model_oc[0] != impl_oc[0]:
         return ("outcome", "model outcome %r, interpreter %r" % (model_oc, impl_oc))
+    if model_oc[0] == "error" and model_oc[1] == "ANY":
+        if impl_oc[1] in ("DIVIDE_BY_ZERO", "OUT_OF_RANGE") or impl_oc[1] is None:
+            return ("outcome", "model: non-catchable run-time type error, interpreter error %s" % impl_oc[1])
+        return None
     if model_oc[0] == "error" and model_oc[1] != impl_oc[1]:
         return ("outcome", "model error %s, interpreter error %s" % (model_oc[1], impl_oc[1]))
     if model_oc[0] == "returned":
@@ -108,3 +112,83 @@ def model_env_check(model_it, d):
             exp = "ti1[" + ",".join("Zi0" if e is None else "i:%d" % e for e in v) + "]"
             if val != exp: bad.append("%s: model %s, interpreter %s" % (k, exp[:60], val[:60]))
     return bad
+
+
+GLOBALS = ["A", "B", "C", "D", "P", "Q", "S", "U", "T", "W"]
+
+PROBE = 'i = "txt"; j = 1.5; k = true; e = "it"; f = tab(1, "x"); t.concat(1); w.concat(2); t.put(0, 9); for i in 1 to 2 loop zz = i; end loop; forall e in t loop zy = e; end loop; print "@@P:" t.count() " " w.count() " " zz;'
+
+
+class DiffRunner:
+    """runs G_model programs through a route and applies all oracles; violations are recorded in self.res"""
+    def __init__(self, prop, desc):
+        self.prop = prop; self.desc = desc; self.res = new_result(); self.probe = Probe("asan", timeout=40)
+        self.E = errnos(self.probe)
+        import random as _r
+        self.rnd = _r.Random("%s-%s-%s-%s" % (desc["seed"], prop, desc["kind"], desc["k"]))
+        self.route = "cpp"
+        self.check_live = False
+
+    def viol(self, cls, what, ops, text):
+        add_violation(self.res, "%s|%s" % (self.prop, cls), what, {"ops": ops, "program": text})
+
+    def ops_for(self, text):
+        if self.route == "istmt":
+            return ["new A 0", "istmt A %s 20000" % hx(text), "dump A", "resetstop A", "istmt A %s 2000" % hx(PROBE), "dump A nofn"]
+        if self.route == "capi":
+            return ["new A 0", "cparse A P %s" % hx(text), "crun A P 20000", "dump A", "resetstop A", "cparse A Q %s" % hx(PROBE), "crun A Q 2000", "dump A nofn"]
+        return ["new A 0", "parse A P %s" % hx(text), "run A P 20000", "dump A", "resetstop A", "parse A Q %s" % hx(PROBE), "run A Q 2000", "dump A nofn"]
+
+    def run_program(self, funcs, prog, label, loopy=True):
+        b = ml.bounded(funcs, prog)
+        if b is None:
+            bump(self.res, "generated_unbounded_discarded"); return
+        it, oc = b
+        text = ml.render(funcs, prog, self.rnd)
+        ops = self.ops_for(text)
+        r = self.probe.case(ops)
+        self.res["evaluations"] += 1
+        if r.timeout:
+            self.res["inconclusive"] += 1; bump(self.res, "timeouts"); return
+        if r.crashed:
+            bump(self.res, "worker_crashes")
+            add_violation(self.res, self.prop + "|crash:%s" % r.sig, "%s program crashed: %s" % (label, r.sig), {"ops": ops, "program": text, "report": r.report[-3000:]}); return
+        rep = r.replies
+        if self.route == "istmt":
+            # normalise the statement-at-a-time layout to [new, parse, run, dump, resetstop, parse, run, dump]
+            rep = [rep[0], "perr" + rep[1][4:] if rep[1].startswith("perr") else "ok", rep[1], rep[2], rep[3],
+                   "perr" + rep[4][4:] if rep[4].startswith("perr") else "ok", rep[4], rep[5]]
+        if not rep[1].startswith("ok"):
+            self.viol("generated-program-rejected", "parser rejected a generated program: %s" % rep[1][:160], ops, text); return
+        ioc, intr, out, steps = impl_outcome(rep[2], self.E)
+        if intr:
+            self.viol("non-termination", "%s program still running after 20000 statements; the reference interpreter finishes it in %d statements" % (label, it.steps), ops, text); return
+        im = markers(out)
+        why = compare(it, oc, ioc, im)
+        if why:
+            self.viol(why[0], "%s: %s" % (label, why[1]), ops, text); return
+        bad, d = residue(rep[3], allow_ret=(oc[0] == "returned"))
+        if bad:
+            self.viol("residue|" + bad[0].split()[0], "%s: after the run (%s): %s" % (label, oc[0], "; ".join(bad)), ops, text); return
+        # conservation of contexts: root + one parse context per declared function + cached runtime contexts, nothing lost or leaked
+        live = int(d["kw"].get("live", "0")); nfn = int(d["kw"].get("nfn", "0")); cached = int(d["kw"].get("cached", "0"))
+        if live != 1 + nfn + cached:
+            self.viol("context-conservation", "%s: %d live contexts after the run (%s), expected 1 + %d functions + %d cached" % (label, live, oc[0], nfn, cached), ops, text); return
+        bump(self.res, "context_conservation_checks")
+        envbad = [x for x in model_env_check(it, d) if x.split(":")[0].upper() in GLOBALS]
+        if envbad:
+            self.viol("final-variables", "%s: %s" % (label, "; ".join(envbad[:3])), ops, text); return
+        # probe: former iterators accept another type, formerly iterated tables accept concat, new loops open
+        if not rep[5].startswith("ok") or not rep[6].startswith("ok"):
+            self.viol("probe-rejected", "%s: probe program refused after the run (%s): %s / %s" % (label, oc[0], rep[5][:100], rep[6][:100]), ops, text); return
+        pm = markers(unhx(rfields(rep[6])[2].get("out", "-")))
+        exp_t = len(it.env.get("t") or []) + 1; exp_w = len(it.env.get("w") or []) + 1
+        if pm != ["@@P:%d %d 2" % (exp_t, exp_w)]:
+            self.viol("probe-output", "%s: probe printed %r, expected table sizes %d %d" % (label, pm, exp_t, exp_w), ops, text); return
+        if it.steps > 12 or not loopy:
+            self.res["nontrivial"].add(case_hash(text))
+        bump(self.res, "outcome_" + oc[0])
+        bump(self.res, "markers_compared", len(im))
+        if len(self.res["samples"]) < 3 and len(im) > 3:
+            self.res["samples"].append({"program": text[:600], "markers": im[:8], "outcome": list(map(str, oc)), "statements_model": it.steps, "statements_interpreter": steps})
+
